@@ -20,7 +20,7 @@ external c_fileset_init_dupsort : string -> int -> int -> nativeint = "vp_filese
 external c_fileset_partition : nativeint -> int -> nativeint * nativeint = "vp_fileset_partition"
 
 let engine = "fs"
-let rule = "histories (length 4..30) over: rewrite the setfile (add/remove/replace names, relative and absolute lines, lines naming missing files and files that are not tables), create/delete table files, advance the clock (whole seconds + random nanoseconds, around the reload interval), mtbl_fileset_reload, mtbl_fileset_reload_now, open an iterator on a handle (iter, get of a present / absent key, get_prefix, get_range, iter or range followed by a seek), close an iterator (it is drained at that moment: pinned snapshot), dup a handle with other filename/reader filters and interval in {0, n, NEVER}, destroy handles. Observed: the set of tables every iterator returns (from the merged value of a key all tables hold) and the complete key sequence it returns, compared with the merge of the tables of the model view within the range / after the seek target (tables hold keys of their own that interleave; seek targets where every file has a different head key). Non-trivial: history contains a setfile change followed by an open; distinct by history."
+let rule = "histories (length 4..30) over: rewrite the setfile (add/remove/replace names, relative and absolute lines, lines naming missing files and files that are not tables, a file named twice), create/delete table files, advance the clock (whole seconds + random nanoseconds, around the reload interval), mtbl_fileset_reload, mtbl_fileset_reload_now, open an iterator on a handle (iter, get of a present / absent key, get_prefix, get_range, iter or range followed by a seek), close an iterator (it is drained at that moment: pinned snapshot), dup a handle with other filename/reader filters and interval in {0, n, NEVER}, destroy handles. Observed: the set of tables every iterator returns (from the merged value of a key all tables hold) and the complete key sequence it returns, compared with the merge of the tables of the model view within the range / after the seek target (tables hold keys of their own that interleave; seek targets where every file has a different head key). Non-trivial: history contains a setfile change followed by an open; distinct by history."
 
 type xop =
   | XSetFile of int list | XCreate of int * int (* name, table id; id < 0: not a table *) | XDelete of int
@@ -50,7 +50,7 @@ let filt f = if f = 0 then None else Some (n_of_int (f - 1))
 
 let to_model (ops : xop list) : fop list =
   List.map (function
-    | XSetFile l -> OpSetFile (List.map n_of_int l)
+    | XSetFile l -> OpSetFile (List.map n_of_int (List.sort_uniq compare l))   (* a path named twice counts once: T07 assumes distinct lines, my_fileset_reload keeps one entry per path *)
     | XCreate (n, t) -> OpCreate (n_of_int n, (if t >= 0 then FTable (n_of_int t) else FNotTable))
     | XDelete n -> OpDelete (n_of_int n)
     | XAdvance (s, ns) -> OpAdvance (n_of_int s, n_of_int ns)
@@ -173,7 +173,9 @@ let gen_history st : int * int * int * xop list =
     let h () = List.nth !alive (rint st (List.length !alive)) in
     (match rint st 14 with
      | 0 | 1 -> let n = rint st 8 in add (XCreate (n, (if rint st 7 = 0 then -1 else rint st 6))); files := n :: !files
-     | 2 -> add (XSetFile (List.sort_uniq compare (List.init (rint st 5) (fun _ -> rint st 9))))
+     | 2 -> let l = List.sort_uniq compare (List.init (rint st 5) (fun _ -> rint st 9)) in
+       (* every sixth setfile names one of its files twice (adjacent or not) *)
+       add (XSetFile (if l <> [] && rint st 6 = 0 then (let d = List.nth l (rint st (List.length l)) in if rbool st then l @ [ d ] else d :: l) else l))
      | 3 -> if !files <> [] then add (XDelete (List.nth !files (rint st (List.length !files))))
      | 4 | 5 -> add (XAdvance ((match rint st 4 with 0 -> 0 | 1 -> 1 | 2 -> rrange st 1 6 | _ -> rrange st 0 2), rint st 999999999))
      | 6 -> add (XReload (h ()))
@@ -330,6 +332,12 @@ let run ~tier ~seed ~only acc =
     (0, 0, 0, [ XCreate (1, 1); XCreate (2, 2); XSetFile [ 1; 2 ]; XDup (0, 0, 0, 0); XOpen (0, 3); XOpen (1, 4); XOpen (0, 5); XOpen (1, 6); XOpen (0, 7);
                 XCreate (3, 3); XSetFile [ 2; 3 ]; XAdvance (2, 0); XReloadNow 1; XOpen (1, 3); XClose 0; XClose 1; XClose 2; XClose 3; XClose 4; XClose 5;
                 XOpen (0, 4); XOpen (1, 7); XClose 6; XClose 7; XDestroy 0; XDestroy 1 ]);
+    (* F12: a path named twice; the setfile rewritten (same lines) and reloaded twice: the reader of the duplicate was
+       destroyed while an entry still pointed to it *)
+    (0, 0, 0, [ XCreate (1, 1); XCreate (2, 2); XSetFile [ 1; 1; 2 ]; XOpen (0, 0); XClose 0; XSetFile [ 1; 1; 2 ]; XAdvance (2, 0); XReloadNow 0; XOpen (0, 0); XClose 1;
+                XSetFile [ 1; 2; 1 ]; XAdvance (2, 0); XReloadNow 0; XOpen (0, 0); XClose 2; XSetFile [ 2; 1; 1 ]; XAdvance (2, 0); XReloadNow 0; XOpen (0, 8); XClose 3; XDestroy 0 ]);
+    (0, 0, 0, [ XCreate (3, 3); XSetFile [ 3; 3 ]; XDup (0, 0, 0, 0); XOpen (1, 0); XClose 0; XSetFile [ 3; 3 ]; XAdvance (2, 0); XReloadNow 1; XSetFile [ 3; 3 ]; XAdvance (2, 0); XReloadNow 0;
+                XOpen (0, 0); XOpen (1, 5); XClose 1; XClose 2; XDestroy 0; XDestroy 1 ]);
     (* mtbl_fileset_partition: filters of the handle are not consulted; a dup; after a reload request; with a non-table loaded (O8) *)
     (0, 1, 2, [ XCreate (1, 1); XCreate (2, 2); XCreate (3, 3); XCreate (4, 4); XSetFile [ 1; 2; 3; 4 ]; XOpen (0, 0); XClose 0; XPartition (0, 1); XDestroy 0 ]);
     (0, 0, 0, [ XCreate (1, 1); XCreate (2, 2); XCreate (5, 0); XSetFile [ 1; 2; 5 ]; XDup (0, 0, 1, 0); XOpen (1, 0); XCreate (4, 4); XSetFile [ 2; 4; 5 ]; XAdvance (2, 0); XReloadNow 0;
